@@ -154,7 +154,10 @@ func runSchedule(t *rapid.T, r *rec.Recorder) {
 		},
 		"block": func(t *rapid.T) {
 			r.Step()
-			params := app.RVestingKeeper.GetParams(ctx)
+			// the reference reads the parameters straight from the params subspace (what governance wrote),
+			// never through the module's own keeper
+			var params rvestingtypes.Params
+			ss.GetParamSet(ctx, &params)
 			// reference: per denomination, moved = min(sum of reward entries, pool) if enabled else 0
 			want := map[string]sdk.Int{}
 			if params.EnableVesting {
@@ -225,7 +228,8 @@ func runSchedule(t *rapid.T, r *rec.Recorder) {
 		},
 	})
 	// shape
-	params := app.RVestingKeeper.GetParams(ctx)
+	var params rvestingtypes.Params
+	ss.GetParamSet(ctx, &params)
 	ds := []string{}
 	for _, e := range params.PerBlockReward {
 		ds = append(ds, e.Denom)
